@@ -40,7 +40,7 @@ META = {
                     'are reported as the probe untracked_drift and only V1 can catch their effects',
                     'jobs that raise are outside the premise ("processed to completion"): the history is cut there',
                     'canonicalisation renames generated identifiers a<digits> by first appearance'],
-    'probe_names': ['corpus_pair', 'eof_cut_inside_math', 'eof_cut_inside_list', 'aborted_histories', 'untracked_drift', 'exec_reference',
+    'probe_names': ['macro_fuzz', 'corpus_pair', 'eof_cut_inside_math', 'eof_cut_inside_list', 'aborted_histories', 'untracked_drift', 'exec_reference',
                     'clock_jump_years', 'same_input_twice', 'job_after_truncated_job', 'v1_compared', 'full_base'],
     'shrink_budget': 40,
     'enum_batch': {'quick': 4, 'thorough': 4},
@@ -262,6 +262,9 @@ def corpus_source(rel):
 
 
 def job_source(job):
+    if job.get('raw') is not None:
+        body = ' '.join('%s fz%d' % (t, k) for k, t in enumerate(job['raw']))
+        return '\\documentclass{%s}\n\\begin{document}\n\\section{Fz}\\label{fzl1}\n%s\n\\end{document}\n' % (job.get('cls', 'article'), body)
     if job.get('corpus'):
         return corpus_source(job['corpus']) or '\\documentclass{article}\\begin{document}missing corpus file\\end{document}\n'
     lines = ['\\documentclass{%s}' % job['cls']]
@@ -334,7 +337,16 @@ def generate(seed, tier):
             job['blocks'] = blocks + [r.choice(OPENERS)]
             job['cut'] = r.choice([999, 999, 998])
         ops.append(job)
-    if r.random() < 0.35 and len(ops) >= 2:
+    if MACROFUZZ and r.random() < 0.3:
+        # macro-fuzz mode: every job is a bag of generic invocations of the user-level macros of plasTeX.Base.LaTeX
+        # (sim/macrofuzz.py); the record carries the generated LaTeX text itself
+        rm = R('macrofuzz')
+        for op in ops:
+            op['raw'] = [rm.choice(MACROFUZZ)[1] for _ in range(rm.randint(3, 12))]
+            op['blocks'] = []
+            op['packages'] = []
+            op['cut'] = None
+    elif r.random() < 0.35 and len(ops) >= 2:
         # paired mode: the last job and one earlier job are built around ONE state family - the earlier one writes it,
         # the last one both writes its own and reads it, with section breaks moving things into other output files
         fam = r.choice(fams)
@@ -466,6 +478,10 @@ def categorize(path):
     return None
 
 
+def _job_alarm(signum, frame):
+    raise TimeoutError('job exceeded its time budget')
+
+
 def history_job(args, fs):
     import plasTeX
     import plasTeX.Compile
@@ -509,9 +525,14 @@ def history_job(args, fs):
                 argv += EXTRA_ARGV[x]
         out = {'name': name, 'ok': True}
         try:
+            import signal as _signal
+            _signal.signal(_signal.SIGALRM, _job_alarm)
+            _signal.alarm(180)           # a job that hangs is a job that did not complete (outside the premise)
             plasTeX.client.main(argv)
+            _signal.alarm(0)
         except BaseException as e:
             import traceback
+            _signal.alarm(0)
             out.update(ok=False, exception=type(e).__name__, message=str(e)[:300], traceback=traceback.format_exc()[-1500:])
         os.chdir(root)
         table = {}
@@ -614,8 +635,15 @@ def scrub(drift, pristine_objs, patterns):
 # --------------------------------------------------------------------------
 # simulator side
 
+MACROFUZZ = []
+
+
 def prepare():
     lifetimes.pristine_parent()
+    global MACROFUZZ
+    if not MACROFUZZ:
+        from .. import macrofuzz
+        MACROFUZZ = macrofuzz.build()
 
 
 def enumerate_cases(base_seed, tier):
@@ -697,7 +725,7 @@ def _materialise(record):
     clock = lifetimes.T0 + 7200
     for j, op in enumerate([o for o in record['ops'] if o.get('op') == 'JOB'][:5]):
         clock += op.get('dt', 1)
-        jobs.append({'name': 'j%d' % j, 'src': job_source(op), 'renderer': op['renderer'], 'split': op['split'],
+        jobs.append({'name': 'j%d' % j, 'src': job_source(op), 'raw': bool(op.get('raw')), 'renderer': op['renderer'], 'split': op['split'],
                      'theme': op['theme'], 'clock': clock, 'blocks': op['blocks'], 'cut': op.get('cut'),
                      'extra': op.get('extra', [])})
     return jobs
@@ -751,6 +779,8 @@ def execute(record):
         # probes
         if any(o.get('corpus') for o in record['ops']):
             info['corpus_pair'] = 1
+        if any(o.get('raw') for o in record['ops']):
+            info['macro_fuzz'] = 1
         for j, job in enumerate(jobs):
             if job['cut'] is not None and j < len(completed):
                 if 'math_open' in job['blocks']:
@@ -828,6 +858,8 @@ def execute(record):
 
 
 def _first_diff(a, b):
+    if 'TimeoutError' in (a.get('exception'), b.get('exception')):
+        return None          # a job that ran out of its time budget did not complete: outside the premise, never a verdict
     if a['ok'] != b['ok']:
         return ('exception', 'job raised in exactly one setting', a.get('exception'), b.get('exception'))
     if a['xml'] != b['xml']:
@@ -856,6 +888,9 @@ def simplify(record):
     for i, op in enumerate(ops):
         if op.get('op') != 'JOB':
             continue
+        if op.get('raw'):
+            for k in range(len(op['raw'])):
+                yield dict(record, ops=ops[:i] + [dict(op, raw=op['raw'][:k] + op['raw'][k + 1:])] + ops[i + 1:])
         for k in range(len(op['blocks'])):
             yield dict(record, ops=ops[:i] + [dict(op, blocks=op['blocks'][:k] + op['blocks'][k + 1:])] + ops[i + 1:])
         for k in range(len(op['packages'])):
